@@ -62,6 +62,12 @@ Example C17_nonvacuous :
   apply_payment 5 5 6 = Err InsufficientFunds /\ pay_customer (2 ^ 63) = Err (AmountTooLarge (2 ^ 63)).
 Proof. vm_compute. auto. Qed.
 
+(** the amount encoding is injective on ALL i64 values (not only on the amounts a constructor can produce): two different wire
+    amounts never share a scalar - so a proof made for one amount cannot pass for another through the encoding *)
+Theorem C17_amount_encoding_injective_on_i64 : forall a a', is_i64 a -> is_i64 a' ->
+  amount_scalar (K:=Fq) a = amount_scalar a' -> a = a'.
+Proof. exact amount_encoding_injective_on_i64. Qed.
+
 Print Assumptions C17_try_new_spec.
 Print Assumptions C17_pay_merchant_spec.
 Print Assumptions C17_pay_customer_spec.
@@ -74,3 +80,4 @@ Print Assumptions C17_encoding_injective_below_q.
 Print Assumptions C17_pinned_amount_min_overflows_refuted.
 Print Assumptions C17_try_add_needs_the_decoder_invariant.
 Print Assumptions C17_nonvacuous.
+Print Assumptions C17_amount_encoding_injective_on_i64.
